@@ -280,10 +280,30 @@ def add_trivia(root, rng):
                 e.insert(rng.randint(0, len(e)), etree.Comment(" between "))
 
 
+def localize_ns(el, keep=("w",)):
+    """the same tree with every namespace other than `keep` declared locally, on each element
+    that uses it in its tag or attributes, instead of at the root"""
+    if not isinstance(el.tag, str):
+        return copy.deepcopy(el)
+    used = {etree.QName(el).namespace} | {etree.QName(k).namespace for k in el.attrib}
+    nsmap = {p: u for p, u in el.nsmap.items() if p is not None and (p in keep or u in used)}
+    if None in el.nsmap and el.nsmap[None] in used:
+        nsmap[None] = el.nsmap[None]
+    new = etree.Element(el.tag, nsmap=nsmap)
+    for k, v in el.attrib.items():
+        new.set(k, v)
+    new.text, new.tail = el.text, el.tail
+    for k in el:
+        new.append(localize_ns(k, keep))
+    return new
+
+
 def variant(pkg: docgen.Pkg, rng: random.Random, what: set) -> bytes:
     members = {}
     for name, root in pkg.parts.items():
         r2 = copy.deepcopy(root)
+        if "nslocal" in what and name.startswith("word/"):
+            r2 = localize_ns(r2)
         if "attrs" in what:
             shuffle_attrs(r2, rng)
         if "trivia" in what and name.startswith("word/") and name not in ("word/numbering.xml", "word/styles.xml"):
@@ -337,7 +357,8 @@ def eval_serial(state, arg):
         # the same document with strict (ISO) namespace URIs and relationship types
         pkg_s = strict_rels(docgen.gen_package(random.Random(sub), kn, ns=common.NS_S))
         variants.append(("strict", pkg_s.to_bytes()))
-        for what in ({"attrs"}, {"trivia"}, {"encoding"}, {"archive"}, {"attrs", "trivia", "encoding", "archive"}):
+        for what in ({"attrs"}, {"trivia"}, {"encoding"}, {"archive"}, {"nslocal"},
+                     {"attrs", "trivia", "encoding", "archive", "nslocal"}):
             variants.append(("+".join(sorted(what)), variant(pkg, rng, what)))
         for name, data in variants:
             obs = observe_all(data, state["model"])
